@@ -38,15 +38,22 @@ def gen_key():
     need(lit("addIfNotFound( StylesheetExecutionContext& executionContext, MutableNodeRefList& theNodeList, XalanNode* theNode) "
              "{ theNodeList.addNodeInDocOrder(theNode, executionContext); }"), _norm(kt), "addIfNotFound = addNodeInDocOrder")
     pk = _norm(function_body(kt, r"KeyTable::processKeyDeclaration\s*\(", "processKeyDeclaration"))
-    need(lit("const XObjectPtr xuse(kd.getUse()->execute(testNode, resolver, theEmptyList, executionContext)); "
-             "if(xuse->getType() != XObject::eTypeNodeSet) { @ANY@ addIfNotFound( executionContext, theKeys[*kd.getQName()][xuse->str(executionContext)], testNode); }"),
-         pk, "processKeyDeclaration: non-node-set use value converted to a string")
+    # context node list of the use expression: empty (position()/last() = 0, finding K-C15-2) or just the node
+    tail = ("if(xuse->getType() != XObject::eTypeNodeSet) { @ANY@ addIfNotFound( executionContext, "
+            "theKeys[*kd.getQName()][xuse->str(executionContext)], testNode); }")
+    if re.search(lit("const XObjectPtr xuse(kd.getUse()->execute(testNode, resolver, theEmptyList, executionContext)); " + tail), pk):
+        singleton = False
+    elif re.search(lit("BorrowReturnMutableNodeRefList theContextNodeList(executionContext); theContextNodeList->addNode(testNode); "
+                       "const XObjectPtr xuse(kd.getUse()->execute(testNode, resolver, *theContextNodeList, executionContext)); " + tail), pk):
+        singleton = True
+    else:
+        raise AnchorError("processKeyDeclaration: evaluation of the use expression / non-node-set use value converted to a string: neither recognised shape")
+    facts["use_context_singleton"] = singleton
     need(lit("const NodeRefListBase::size_type nUseValues = nl.getLength();") + ".*?" +
          lit("for (NodeRefListBase::size_type i = 0; i < nUseValues; ++i) {") + ".*?" +
          lit("DOMServices::getNodeData(*nl.item(i), executionContext, nodeData);") + ".*?" +
          lit("addIfNotFound( executionContext, theKeys[*kd.getQName()][nodeData], testNode); nodeData.clear(); }"),
          pk, "processKeyDeclaration: one entry per node of a node-set use value")
-    facts["use_context_list_empty"] = True
     # lookup
     lk = _norm(function_body(kt, r"KeyTable::getNodeSetByKey\s*\(", "KeyTable::getNodeSetByKey"))
     need(lit("const KeysMapType::const_iterator i = m_keys.find(qname); if (i != m_keys.end()) { const NodeListMapType& theMap = (*i).second; "
